@@ -366,7 +366,11 @@ func checkPDF(data []byte, m *docModel, r *fw.R) (*findings, [20]byte) {
 					if gid >= pf.prog.N {
 						got = fmt.Sprintf("(glyph index %d is outside the %d glyphs of the program)", gid, pf.prog.N)
 					}
-					if got != want {
+					if g.id == 0 && got != want {
+						// a character the font does not have is shown with .notdef; which shape stands
+						// for a missing character (the subsetters empty it) is not part of the statement
+						r.Outcome("notdef:outline-not-compared")
+					} else if got != want {
 						class := "glyph-outline"
 						why := ""
 						switch {
@@ -412,7 +416,10 @@ func checkPDF(data []byte, m *docModel, r *fw.R) (*findings, [20]byte) {
 				}
 
 				// --- ToUnicode
-				if pf.tu == nil {
+				if g.id == 0 {
+					// .notdef stands for every character the font lacks: no single text is recoverable
+					r.Outcome("notdef:tounicode-not-compared")
+				} else if pf.tu == nil {
 					f.add("tounicode", "font /%s has no ToUnicode map; %s", pf.name, ctx())
 				} else {
 					got, have := pf.tu.Map[sh.Code]
